@@ -493,7 +493,23 @@ func ruleC02Exh(p *Prog, r *Res) {
 // comparatorOrientation checks that the final ordering test of a less-function compares a's value
 // against b's in that order: `a.X < b.X`, `at.Before(bt)` with at derived from a, `cmp < 0` with
 // cmp := bytes.Compare(ah, bh).
+// comparatorDelegate: the comparator literal is `return h(a, b, …)` (or h(b, a, …)) for a declared function h of the
+// same package; returns h, and whether the operands are passed in order.
+var comparatorDelegate func(info *types.Info, lit *ast.FuncLit, a, b types.Object) (h *Fn, inOrder, ok bool)
+
 func comparatorOrientation(info *types.Info, lit *ast.FuncLit, a, b types.Object) (bool, string) {
+	if comparatorDelegate != nil {
+		if h, inOrder, ok := comparatorDelegate(info, lit, a, b); ok {
+			if !inOrder {
+				return false, "the comparator passes (b, a) to " + h.Key() + ": the order is reversed"
+			}
+			pa, pb := paramObj(h, 0), paramObj(h, 1)
+			if pa != nil && pb != nil && h.Decl != nil {
+				ok2, why := comparatorOrientation(h.Pkg.TypesInfo, &ast.FuncLit{Type: h.Decl.Type, Body: h.Decl.Body}, pa, pb)
+				return ok2, "delegates to " + h.Key() + ": " + why
+			}
+		}
+	}
 	// derive: map local var -> which param it depends on
 	dep := map[types.Object]string{a: "a", b: "b"}
 	dependsOn := func(e ast.Expr) string {
